@@ -3,6 +3,9 @@ a `prog` (straight-line list of constructor calls, JSON) to a real Python graph 
 and the canonical description of a built SynthDef.
 
 prog = {"ir": [default, ...], "kr": [default, ...], "ins": [instr, ...], "mce": [[start, count], ...]}
+"irshape" / "krshape": [size, ...] partition the ir / kr control slots into PARAMETERS of the graph function: size 1 = a
+scalar default, size n > 1 = an array-valued default (a tuple) whose proxies arrive as a list; ["p", "kr", j] is
+still slot j of the kr controls (for the model nothing changes: the source expression of a control input is a slot).
 "blocks": [[start, count, {"form", "rows", "result"}], ...]: the `count` instructions from `start` are what ONE call of
 a sum helper does (ChannelList(rows).sum() / Mix.new(rows), rows flat or nested, plain lists or ChannelLists); only
 the instructions named in "result" have a value the rest of the program can use.
@@ -223,8 +226,20 @@ def make_func(prog):
     import sc3.synth.ugen as ugn
     from sc3.synth.ugens import inout as iou
     nir, nkr = len(prog.get('ir', [])), len(prog.get('kr', []))
-    names = ['i%d' % j for j in range(nir)] + ['k%d' % j for j in range(nkr)]
-    defaults = [float(Fraction(x)) for x in prog.get('ir', [])] + [float(Fraction(x)) for x in prog.get('kr', [])]
+    irshape = prog.get('irshape') or [1] * nir
+    krshape = prog.get('krshape') or [1] * nkr
+    if sum(irshape) != nir or sum(krshape) != nkr or any(n < 1 for n in irshape + krshape):
+        raise Unsupported('parameter shapes do not partition the control slots')
+    names, defaults, slot_of = [], [], []         # slot_of[flat slot] = (parameter number, element or None)
+    for tag, shape, vals_ in (('i', irshape, prog.get('ir', [])), ('k', krshape, prog.get('kr', []))):
+        pos_ = 0
+        for n in shape:
+            d = [float(Fraction(x)) for x in vals_[pos_:pos_ + n]]
+            for e in range(n):
+                slot_of.append((len(names), e if n > 1 else None))
+            names.append('%s%d' % (tag, len(names)))
+            defaults.append(d[0] if n == 1 else tuple(d))
+            pos_ += n
     ins = prog['ins']
 
     def body(params):
@@ -238,7 +253,8 @@ def make_func(prog):
                     return -0.0
                 return float(Fraction(a[1]))
             if a[0] == 'p':
-                return params[(0 if a[1] == 'ir' else nir) + a[2]]
+                pn, el = slot_of[(0 if a[1] == 'ir' else nir) + a[2]]
+                return params[pn] if el is None else params[pn][el]
             v = vals[a[1]]
             if v is None:
                 raise Unsupported('reference to an instruction without value')
@@ -390,13 +406,38 @@ ERR_KINDS = ('KeyError', 'ValueError', 'TypeError', 'AttributeError', 'GraphFunc
              'Unsupported')
 
 
+def check_param_table(prog, sd):
+    """The parameter table must map every parameter to the first control slot that carries its default(s)."""
+    nir = len(prog.get('ir', []))
+    exp = []
+    for off, shape in ((0, prog.get('irshape') or [1] * nir), (nir, prog.get('krshape') or [1] * len(prog.get('kr', [])))):
+        pos_ = off
+        for n in shape:
+            exp.append(pos_)
+            pos_ += n
+    got = [cn.index for cn in sd._all_control_names]
+    if got != exp:
+        return ['parameter table maps the parameters to control slots %s, expected %s' % (got, exp)]
+    flat = [float(Fraction(x)) for x in prog.get('ir', [])] + [float(Fraction(x)) for x in prog.get('kr', [])]
+    bad = []
+    for cn, start in zip(sd._all_control_names, exp):
+        d = cn.default_value if isinstance(cn.default_value, (list, tuple)) else [cn.default_value]
+        if [float(x) for x in d] != flat[start:start + len(d)] or [float(x) for x in sd._controls[start:start + len(d)]] != [float(x) for x in d]:
+            bad.append('parameter %s: defaults %s are not the control values at slot %d' % (cn.name, list(d), start))
+    return bad[:3]
+
+
 def build(prog, name='t'):
     """Build with the real SynthDef; return (description, synthdef or None)."""
     from sc3.synth.synthdef import SynthDef
     try:
         f = make_func(prog)
         sd = SynthDef(name, f)
-        return describe(sd), sd
+        d = describe(sd)
+        bad = check_param_table(prog, sd)
+        if bad:
+            d['inconsistent'] = (d.get('inconsistent') or []) + bad
+        return d, sd
     except BaseException as e:    # noqa: we classify everything, including BaseException
         kind = type(e).__name__
         if isinstance(e, (KeyboardInterrupt, SystemExit)):
